@@ -501,10 +501,47 @@ def task_inv_phi(a, env):
                         r.viol("C14:FQ:inverse-near-p/phi:%s" % fam, ME + ":replay_inv", {"p": p, "x": hex(x), "fam": fam}, want, got)
                 r.ev += 2
                 r.dn += 1
+        # partial quotients of every size: x = (p + t) / k with t of every bit length below p / k makes
+        # Euclid's algorithm meet a quotient of about 2^j for every j (an estimated quotient must be exact)
+        for x in quotient_size_inputs(p):
+            want = pow(x, -1, p)
+            for fam in ("ref", "opt"):
+                cfg = cfgs[(fam, "E1")]
+                try:
+                    got = (1 / cfg.lib(x)).n
+                except Exception as e:  # noqa: BLE001
+                    got = "raise " + type(e).__name__
+                if got != want:
+                    r.viol("C14:FQ:inverse-with-large-partial-quotient:%s" % fam, ME + ":replay_inv", {"p": p, "x": hex(x), "fam": fam}, want, got)
+            r.ev += 2
+            r.dn += 1
     r.transitions = r.ev
     r.states = 2
-    r.sample({"window": "floor(p/phi) +- %d and p - floor(p/phi) +- %d" % (a["w"], a["w"]), "fields": ["bn128 FQ", "bls12_381 FQ"]})
+    r.sample({"window": "floor(p/phi) +- %d and p - floor(p/phi) +- %d" % (a["w"], a["w"]), "fields": ["bn128 FQ", "bls12_381 FQ"],
+              "quotient_sizes": "x = (p + t) / k, k in 1,2,3,5,7,11, t of every bit length"})
     return r
+
+
+def quotient_size_inputs(p):
+    import hashlib
+    out = []
+    for k in (1, 2, 3, 5, 7, 11):
+        L = (p // k).bit_length()
+        for j in range(1, L - 2):
+            # quotients next to a machine-word boundary (2^31..2^33, 2^62..2^66, 2^126..2^130): more variants
+            nvar = 12 if (30 <= j <= 34 or 61 <= j <= 67 or 125 <= j <= 131) else 2
+            for v in range(nvar):
+                # t: top bit set, all lower bits dense (a truncated divisor must not be good enough)
+                dense = int.from_bytes(hashlib.sha512(b"%d/%d/%d" % (k, j, v)).digest() * 2, "big")
+                t = (1 << (L - j - 1)) | (dense % (1 << (L - j - 1))) | 1
+                t += (-p - t) % k
+                x = (p + t) // k
+                if 0 < x < p:
+                    out += [x, p - x]
+                x2 = (p - t - ((p - t) % k)) // k  # the same from below
+                if 0 < x2 < p:
+                    out.append(x2)
+    return out
 
 
 def replay_inv(a):
